@@ -23,7 +23,7 @@ BUILDS = ('fast',)
 LEVEL = 'exploration'
 BRACE_NL = ['nl_if_brace', 'nl_brace_else', 'nl_else_brace', 'nl_for_brace', 'nl_while_brace', 'nl_do_brace', 'nl_brace_while', 'nl_switch_brace',
             'nl_fdef_brace', 'nl_struct_brace', 'nl_elseif_brace', 'nl_else_if']
-JUDGED = ('stmt', 'single', 'close', 'case', 'top', 'open', 'hdr', 'func', 'fclose')
+JUDGED = ('stmt', 'single', 'close', 'case', 'top', 'open', 'hdr', 'func', 'fclose', 'sclose', 'chdr', 'cclose', 'label')
 
 
 def vcol(lead, ts):
@@ -93,6 +93,21 @@ def judge(case):
         lead_by_stmt[i] = lead
         col = vcol(lead, ts)
         want = 1 + depth * ic
+        if mode == 'braces':
+            # indent_braces=true: a closing brace sits at the level of the body it closes - except the braces of a switch (indent_switch_body
+            # is 0), of functions under indent_braces_no_func and of classes under indent_braces_no_class; with indent_class the class body
+            # (everything between the class's first and last line) is one level in
+            in_class = ex.get('class_body') and kind not in ('chdr', 'cclose')
+            if in_class and cfgd.get('indent_class') == 'true':
+                want += ic
+            if kind == 'close' or (kind == 'fclose' and cfgd.get('indent_braces_no_func', 'false') != 'true') or (kind == 'hdr' and f[2] == 'BRACE_OPEN'):
+                want += ic          # (a line that starts with the '{' of a bare block is a brace line as well)
+            if kind == 'cclose' and cfgd.get('indent_class') == 'true' and cfgd.get('indent_braces_no_class', 'false') != 'true':
+                want += ic
+        if kind == 'label':
+            # indent_label: > 0 an absolute column; <= 0 that many columns to the left of the block's statements (not left of column 1)
+            il = int(cfgd.get('indent_label', '1'))
+            want = il if il > 0 else max(1, want + il)
         if kind == 'single' and f[2] == 'ELSEIF':
             want -= ic          # documented default (indent_else_if=false): 'else' + line break + 'if' is indented as 'else if'
         judged += 1
@@ -181,7 +196,7 @@ def to_case(v):
 def make_strategy_lines():
     from hypothesis import strategies as st
     return st.tuples(st.sampled_from(['CPP', 'JAVA', 'C', 'CPP']), st.booleans(), st.integers(0, 2 ** 32 - 1), st.integers(0, 2 ** 32 - 1)).flatmap(
-        lambda t: st.tuples(st.just(t), gen_lines.program(t[0], allow_switch=not t[1], force_braces=t[1])))
+        lambda t: st.tuples(st.just(t), gen_lines.program(t[0], allow_switch=not t[1], force_braces=t[1], labels=True)))
 
 
 def to_case_lines(v):
@@ -194,10 +209,24 @@ def to_case_lines(v):
             'output_tab_size': str(crng.choice([1, 2, 3, 4, 8, 8, 16]))}
     for o in crng.sample(BRACE_NL + ['nl_try_brace', 'nl_brace_catch', 'nl_catch_brace', 'nl_brace_finally', 'nl_finally_brace'], crng.randint(0, 4)):
         cfgd[o] = crng.choice(['add', 'remove', 'force'])
+    if crng.random() < 0.5:
+        cfgd['indent_label'] = str(crng.choice([1, 2, 5, 0, -1, -2, -3, -4, -8]))
     extra = {'stmts': [[i + 1, d, k] for i, (d, k, _t) in enumerate(lines)], 'src2_b64': core.b64(src2.encode('utf-8'))}
     if brace_mode:
         cfgd['indent_brace'] = str(crng.choice([1, 2, 4]))
         extra['mode'] = 'constancy'
+    elif crng.random() < 0.3:
+        # the indent_braces family (braces at body level, with its exemptions) has a closed form too
+        cfgd['indent_braces'] = 'true'
+        for o in ('indent_braces_no_func', 'indent_braces_no_class', 'indent_braces_no_struct'):
+            cfgd[o] = crng.choice(['true', 'false'])
+        if lang == 'JAVA':
+            cfgd['indent_class'] = crng.choice(['true', 'false'])
+            extra['class_body'] = True
+        for o in list(cfgd):
+            if o.startswith('nl_') :
+                cfgd.pop(o)        # (brace lines stay where the generator put them: '}' first on its line)
+        extra['mode'] = 'braces'
     return family.Case(src1.encode('utf-8'), lang, cfgd, {'kind': 'generated-lines', 'indent_seed': iseed, 'cfg_seed': cseed}, extra)
 
 
